@@ -153,6 +153,11 @@ pub fn enabled<P: Proto>(w: &ClientWorld<P>, cfg: &Cfg) -> Vec<(CAct, u8)> {
                         if cfg.v5 {
                             v.push((CAct::Batch(vec![inbound(1, 1, 412), Pk::Disconnect]), 1));
                         }
+                        // packets a broker never sends in mid-session
+                        v.push((CAct::B(Pk::PingReq), 1));
+                        v.push((CAct::B(Pk::Subscribe(1)), 1));
+                        v.push((CAct::B(Pk::Unsubscribe(1)), 1));
+                        v.push((CAct::B(Pk::ConnAck { sp: false, code: 0, recv_max: None, server_ka: None }), 1));
                     }
                     2 => {
                         // read batches around the 10-packet limit, and a half-written packet
